@@ -553,9 +553,9 @@ func runW5H(t *testing.T, job *worlds.Job, seed uint64, rp *worlds.Replay) world
 	fault := ""
 	var ioFault *simfs.Fault
 	if rp != nil && rp.Override && len(rp.Ops) > 0 {
-		var s string
-		json.Unmarshal(rp.Ops, &s)
-		data = []byte(s)
+		var raw []byte // base64 in the replay file: contents are arbitrary bytes
+		json.Unmarshal(rp.Ops, &raw)
+		data = raw
 	} else {
 		if r.Chance(0.15) {
 			// pathological but valid spellings
@@ -603,7 +603,7 @@ func runW5H(t *testing.T, job *worlds.Job, seed uint64, rp *worlds.Replay) world
 	ro.Steps = 1
 	ro.Sample = fmt.Sprintf("seed=%d edits=%v fault=%q content=%q", seed, log, fault, shortStr(string(data), 200))
 	if pv != nil {
-		b, _ := json.Marshal(string(data))
+		b, _ := json.Marshal(data)
 		ro.Vio = &worlds.Vio{Props: []string{"C09"}, Clause: "hidi_toml_panic", Detail: fmt.Sprintf("LoadHIDIConfig panicked: %v on content %q (edits %v, storage fault %q)", pv, shortStr(string(data), 400), log, fault)}
 		ro.Replay = &worlds.Replay{World: "W5H", Prop: "C09", Seed: seed, Tier: job.Tier, Ops: b, Override: true, Config: string(data)}
 	}
